@@ -391,6 +391,36 @@ impl Elem for [u8; 3] {
     }
 }
 
+/// 512-byte plain element: arrays of a few of these exceed 1 KiB (size-dependent code paths).
+#[derive(Clone)]
+pub struct Fat(pub [u64; 64]);
+impl Elem for Fat {
+    const NAME: &'static str = "Fat(512B)";
+    const TRACKED: bool = false;
+    const KEYED: bool = true;
+    fn fresh() -> Fat {
+        let v = mix(next_plain());
+        let mut a = [0u64; 64];
+        let mut i = 0;
+        while i < 64 {
+            a[i] = v.wrapping_add(i as u64);
+            i += 1;
+        }
+        Fat(a)
+    }
+    fn key(&self) -> u64 {
+        // torn copies show up as a broken arithmetic progression
+        let mut i = 1;
+        while i < 64 {
+            if self.0[i] != self.0[0].wrapping_add(i as u64) {
+                return !self.0[0] ^ 0xFA7;
+            }
+            i += 1;
+        }
+        self.0[0]
+    }
+}
+
 /// Keys of a slice of elements, in order.
 pub fn keys<E: Elem>(xs: &[E]) -> Vec<u64> {
     let _m = crate::alloc::Mask::new();
